@@ -400,10 +400,25 @@ pub fn run(out_path: &str, tier: &str) {
 							if let Err(e) = KeyPair::from_pem(&t) {
 								texts.push(show(e));
 							}
+							if let Err(e) = KeyPair::try_from(d.as_slice()) {
+								texts.push(show(e));
+							}
 							for a in crate::keydrv::ALL_ALGS {
 								if let Some(a) = alg_static(a) {
 									if let Err(e) = KeyPair::from_pem_and_sign_algo(&t, a) {
 										texts.push(show(e));
+									}
+									// the loaders that take the bytes for PKCS#8 whatever the label says
+									if let Err(e) = KeyPair::from_pkcs8_pem_and_sign_algo(&t, a) {
+										texts.push(show(e));
+									}
+									if let Err(e) = KeyPair::from_pkcs8_der_and_sign_algo(&pki_types::PrivatePkcs8KeyDer::from(d.clone()), a) {
+										texts.push(show(e));
+									}
+									if let Ok(pk) = pki_types::PrivateKeyDer::try_from(d.clone()) {
+										if let Err(e) = KeyPair::from_der_and_sign_algo(&pk, a) {
+											texts.push(show(e));
+										}
 									}
 								}
 							}
@@ -433,5 +448,119 @@ pub fn run(out_path: &str, tier: &str) {
 		}
 	}
 	let _ = unhex("");
+	out.finish();
+}
+
+// ---- the command line tool: what it prints, and the files that are not key files ------------------------------------
+
+fn ktype_of_pkcs8(pkcs8: &[u8]) -> Option<&'static str> {
+	let k = pkey_from_pkcs8_any(pkcs8)?;
+	Some(match k.id() {
+		openssl::pkey::Id::ED25519 => "ed25519",
+		openssl::pkey::Id::RSA => "rsa",
+		_ => "ec",
+	})
+}
+
+/// `fault`: "none", or the file name (relative to the output directory) at which a directory is planted so that the
+/// tool cannot create that file, or "outdir" (the output directory lies under a regular file).
+pub fn run_cli(out_path: &str, bin: &str, workdir: &str, tier: &str) {
+	use std::process::Command;
+	let mut out = Out::create(out_path);
+	let help = Command::new(bin).arg("--help").output().expect("run cli");
+	let awslc = String::from_utf8_lossy(&help.stdout).contains("--ecdsa-p521");
+	out.be = if awslc { "awslc" } else { "ring" };
+	let mut algs = vec!["$default", "ed25519", "ecdsa-p384"];
+	if awslc {
+		algs.extend(["rsa", "ecdsa-p521"]);
+	}
+	let name_sets: Vec<(&str, &str)> = if tier == "quick" { vec![("cert", "root-ca")] } else { vec![("cert", "root-ca"), ("my.leaf", "my.ca")] };
+	let mut n = 0u64;
+	for alg in &algs {
+		for (ee, ca) in &name_sets {
+			let faults: Vec<String> = vec!["none".into(), format!("{}.key.pem", ee), format!("{}.pem", ee), format!("{}.key.pem", ca), format!("{}.pem", ca), "outdir".into()];
+			for fault in &faults {
+				let root = std::path::Path::new(workdir).join(format!("clisec-{}-{}", out.be, n));
+				let _ = std::fs::remove_dir_all(&root);
+				std::fs::create_dir_all(&root).unwrap();
+				let outdir = if fault == "outdir" {
+					std::fs::write(root.join("plainfile"), b"x").unwrap();
+					root.join("plainfile").join("sub")
+				} else {
+					root.join("out")
+				};
+				if fault != "outdir" {
+					std::fs::create_dir_all(&outdir).unwrap();
+					if fault != "none" {
+						std::fs::create_dir_all(outdir.join(fault)).unwrap();
+					}
+				}
+				let mut args: Vec<String> = vec!["-o".into(), outdir.to_string_lossy().to_string(), "--san=host.example.test".into(), format!("--cert-file-name={}", ee), format!("--ca-file-name={}", ca)];
+				if *alg != "$default" {
+					args.push(format!("--{}", alg));
+				}
+				let res = Command::new(bin).args(&args).env("RUST_BACKTRACE", "1").output().expect("spawn cli");
+				let mut said = res.stdout.clone();
+				said.extend_from_slice(b"\n");
+				said.extend_from_slice(&res.stderr);
+				// the keys the run wrote (as far as it got)
+				let mut comps: Vec<Vec<u8>> = Vec::new();
+				let mut keys_seen = 0;
+				for name in [ee, ca] {
+					if let Ok(text) = std::fs::read_to_string(outdir.join(format!("{}.key.pem", name))) {
+						if let Some(der) = crate::pemx::decode_strict(&text) {
+							if let Some(kt) = ktype_of_pkcs8(&der) {
+								comps.extend(private_components(&der, kt));
+								keys_seen += 1;
+							}
+						}
+					}
+				}
+				let needles = Needles::new(&comps);
+				let mut forms = search(&needles, &said);
+				// a private-key PEM block in the output is a leak whichever key it holds
+				if String::from_utf8_lossy(&said).contains("PRIVATE KEY") {
+					forms.push("pem-block");
+				}
+				let channel = match fault.as_str() {
+					"none" => "Cli(stdout and stderr of a successful run)",
+					"outdir" => "Cli(stdout and stderr when the output directory cannot be created)",
+					f if f.ends_with(".key.pem") => "Cli(stdout and stderr when a key file cannot be created)",
+					_ => "Cli(stdout and stderr when a certificate file cannot be created)",
+				};
+				n += 1;
+				out.event("Channel", &format!("cli-channel/{}", n), json!({"channel": channel, "keyType": alg, "alg": alg, "fault": fault}), "Ok", "",
+					json!({"leaked": !forms.is_empty(), "forms": forms, "len": said.len(), "exit": res.status.code().unwrap_or(-1), "keysSeen": keys_seen}));
+				// the certificate files of a run
+				let mut certs: Vec<u8> = Vec::new();
+				for name in [ee, ca] {
+					if let Ok(b) = std::fs::read(outdir.join(format!("{}.pem", name))) {
+						certs.extend(b);
+					}
+				}
+				if !certs.is_empty() {
+					n += 1;
+					let mut forms = search(&needles, &certs);
+					if String::from_utf8_lossy(&certs).contains("PRIVATE KEY") {
+						forms.push("pem-block");
+					}
+					out.event("Channel", &format!("cli-channel/{}", n), json!({"channel": "Cli(certificate files)", "keyType": alg, "alg": alg, "fault": fault}), "Ok", "",
+						json!({"leaked": !forms.is_empty(), "forms": forms, "len": certs.len(), "exit": res.status.code().unwrap_or(-1), "keysSeen": keys_seen}));
+				}
+				// non-vacuity: the key files do contain what the search looks for
+				if fault == "none" {
+					let mut keys: Vec<u8> = Vec::new();
+					for name in [ee, ca] {
+						keys.extend(std::fs::read(outdir.join(format!("{}.key.pem", name))).unwrap_or_default());
+					}
+					n += 1;
+					let forms = search(&needles, &keys);
+					out.event("Channel", &format!("cli-channel/{}", n), json!({"channel": "Cli(key files)", "keyType": alg, "alg": alg, "fault": fault}), "Ok", "",
+						json!({"leaked": !forms.is_empty(), "forms": forms, "len": keys.len(), "exit": res.status.code().unwrap_or(-1), "keysSeen": keys_seen}));
+				}
+				let _ = std::fs::remove_dir_all(&root);
+			}
+		}
+	}
 	out.finish();
 }
